@@ -62,8 +62,12 @@ SQLITE_REGISTRATION_MEANING = {
     "cosh": {"math.cosh", "numpy.cosh"}, "tanh": {"math.tanh", "numpy.tanh"},
     "arccos": {"numpy.arccos"}, "arcsin": {"numpy.arcsin"}, "arctan": {"numpy.arctan"},
     "arccosh": {"numpy.arccosh"}, "arcsinh": {"numpy.arcsinh"}, "arctanh": {"numpy.arctanh"},
-    "floor": {"math.floor", "numpy.floor"}, "ceil": {"math.ceil", "numpy.ceil"},
+    "floor": {"math.floor", "numpy.floor"}, "ceil": {"math.ceil", "numpy.ceil"}, "ceiling": {"math.ceil", "numpy.ceil"},
 }
+
+# python functions that return an int for a float argument (numpy's counterparts keep the float type); registered raw as a SQLite
+# function they turn a REAL column INTEGER
+PYTHON_INT_VALUED_OF_FLOAT = {"math.floor", "math.ceil", "math.trunc"}
 
 # pandas / numpy names the Pandas executor falls through to for catalogued methods that are not in impl_map
 # (pandas 3.0.5 / numpy 2.5.3 in this sandbox; names verified once with dir() of the installed libraries)
